@@ -158,3 +158,120 @@ func ruleEOFOnly(r *Run) {
 	}
 	r.check(n >= 5, "repo:eof-comparisons", fmt.Sprintf("%d error values compared with io.EOF", n), "fewer than confirmed by reading: rule needs review", "-")
 }
+
+// ---------------------------------------------------------------------------------------------
+// R4.13 — a record log opened for appending is first cut back to its last complete record: between
+// the OpenFile(O_APPEND) of a log store (storage/filelog, the JSON mutation log in server) and every
+// exit that hands the file out, a call that can reach (*os.File).Truncate is passed.
+
+func init() {
+	register(ruleDef{ID: "R4.13", Prop: "C04", Tier: "quick", Floor: 3,
+		Title: "a record log opened for appending is first cut back to its last complete record: in storage/filelog and in the server's JSON mutation log, every path from an os.OpenFile with O_APPEND to an exit without error passes a call that can reach (*os.File).Truncate, so the first append after a crash is never glued to a torn record",
+		Fn:    ruleAppendOpenTrims})
+}
+
+func ruleAppendOpenTrims(r *Run) {
+	w := r.W
+	const (
+		oWRONLY = 0x1
+		oRDWR   = 0x2
+		oAPPEND = 0x400
+	)
+	isTruncate := func(c ssa.CallInstruction) bool {
+		callee := staticCallee(c)
+		return callee != nil && callee.Name() == "Truncate" && callee.Signature.Recv() != nil && typeIs(callee.Signature.Recv().Type(), "os", "File")
+	}
+	reach := w.newReach(isTruncate, nil)
+	n := 0
+	for _, f := range w.RepoFuncs {
+		pkg := relPkg(pkgPathOf(f))
+		if (pkg != "storage/filelog" && pkg != "server") || len(f.Blocks) == 0 || strings.HasSuffix(w.fposFile(f), "_test.go") {
+			continue
+		}
+		k := 0
+		for _, c := range calls(f) {
+			callee := staticCallee(c)
+			if callee == nil || callee.Name() != "OpenFile" || callee.Pkg == nil || callee.Pkg.Pkg.Path() != "os" {
+				continue
+			}
+			flag, ok := constInt(c.Common().Args[1])
+			if !ok || flag&(oWRONLY|oRDWR) == 0 || flag&oAPPEND == 0 {
+				continue
+			}
+			k++
+			n++
+			trims := func(x ssa.Instruction) bool {
+				c2, ok := x.(ssa.CallInstruction)
+				if !ok {
+					return false
+				}
+				if isTruncate(c2) {
+					return true
+				}
+				for _, g := range w.Callees(c2) {
+					if reach.From(g) {
+						return true
+					}
+				}
+				return false
+			}
+			// the branch on which the open itself failed hands no file out
+			var openErr ssa.Value
+			if cv, ok := c.(*ssa.Call); ok {
+				for _, ref := range *cv.Referrers() {
+					if ex, ok := ref.(*ssa.Extract); ok && ex.Index == 1 {
+						openErr = ex
+					}
+				}
+			}
+			errVals := map[ssa.Value]bool{}
+			if openErr != nil {
+				errVals[openErr] = true
+				// spilled to a named result and loaded back in the same block
+				for _, ref := range *openErr.Referrers() {
+					st, ok := ref.(*ssa.Store)
+					if !ok || st.Val != openErr {
+						continue
+					}
+					after := false
+					for _, in := range st.Block().Instrs {
+						if in == ssa.Instruction(st) {
+							after = true
+							continue
+						}
+						if !after {
+							continue
+						}
+						if st2, ok := in.(*ssa.Store); ok && st2.Addr == st.Addr {
+							break
+						}
+						if ld, ok := in.(*ssa.UnOp); ok && ld.Op == token.MUL && ld.X == st.Addr {
+							errVals[ld] = true
+						}
+					}
+				}
+			}
+			opened := func(b *ssa.BasicBlock, i int) bool {
+				ifi, ok := b.Instrs[len(b.Instrs)-1].(*ssa.If)
+				if !ok || openErr == nil {
+					return true
+				}
+				bo, ok := ifi.Cond.(*ssa.BinOp)
+				if !ok || (!errVals[bo.X] && !errVals[bo.Y]) {
+					return true
+				}
+				if bo.Op == token.NEQ {
+					return i != 0
+				}
+				if bo.Op == token.EQL {
+					return i != 1
+				}
+				return true
+			}
+			p := findPath(f, c.(ssa.Instruction), trims, successExit, opened)
+			r.check(p == nil, fmt.Sprintf("%s:OpenFile#%d:tail-trimmed", fname(f), k), "every exit without error after the open passes a call that can truncate the file",
+				"a record log is opened for appending and handed out without a look at its tail: after a crash that tore the last record, the next acknowledged record is appended behind the torn one — the reader returns an invented record made of both, or never reaches the new one", w.pos(c.Pos()), w.renderPath(p)...)
+		}
+	}
+	r.check(n >= 2, "logs:append-opens", fmt.Sprintf("%d opens with O_APPEND in the log stores", n), "fewer than the two log stores confirmed by reading: rule needs review", "-")
+}
